@@ -492,7 +492,20 @@ def constructor_task(name):
     return _
 
 
-SKIP = {}
+P.not_decided += [
+    "derivatives: that reb_tools_solve_kepler_pal meets its summary contract (Newton iteration on Pal's equations converges to "
+    "the root for e < 0.3, reb_M_to_E branch otherwise) -- a convergence statement, C11/C03 territory; assumed",
+    "derivatives: that the extraction routines invert the forward maps (so that the constructor differentiates at the elements "
+    "of the particle handed in) is property C11; here the constructor is proved to be the derivative at the elements the "
+    "extraction returns",
+    "derivatives: hyperbolic regime of the classical-element constructors (a < 0, e > 1: same formulas, square roots of "
+    "negative factor products) and the singular points e = 0, inc = 0 (the derivative formulas are proved as identities in the "
+    "elements; whether the extracted omega, Omega, f are meaningful there is C11's coordinate-singularity question)",
+    "derivatives: numerical agreement of the constructors with finite differences of the maps (rounding, step size): replaced "
+    "by the exact identity; not decided as a numerical statement",
+]
+
+SKIP = {}          # constructors whose obligations do not discharge within the budget would be listed here BY NAME: none
 for _n in NAMES:
     if _n not in SKIP:
         constructor_task(_n)
